@@ -708,6 +708,17 @@ def run(ctx):
                             if idx_ is not None and idx_ < len(caps):
                                 more += caps[idx_]
                     os_ = [o for o in os_ if not (o.kind == "arg" and o.arg == 1 and o.proj)] + more
+                # the cost may travel inside an Option (`let extra = nested.then_some(COST)` ... `if let Some(cost) = extra`):
+                # look at what was put into it
+                host_ = prog.fns.get(f.root) if f.kind == "closure" else f
+                more2 = []
+                for o in list(os_):
+                    if o.kind == "call" and o.call.name.endswith("::then_some") and len(o.call.args) > 1:
+                        more2 += flow.origins(host_ if o.call.fn is host_ else o.call.fn, o.call.args[1])
+                    elif o.kind == "agg" and o.rv.get("variant") == "Some" and o.rv.get("ops"):
+                        g_ = host_
+                        more2 += flow.origins(g_, o.rv["ops"][0]) if g_ is not None else []
+                os_ = os_ + more2
                 named = set()
                 depth_inherited = False
                 for o in os_:
@@ -739,16 +750,64 @@ def run(ctx):
             ok = val >= bound if kind == "min" else val <= bound
             ctx.ob("C11.R2.constant-within-reviewed-bound", tag + cpath, ok,
                    "%s = %d, reviewed %s %d" % (cpath, val, "minimum" if kind == "min" else "maximum", bound), "")
-        sl = prog.fn(SETLIM)
+        sl = prog.view(SETLIM, keep=("min", "clamp"))
         clamp = False
+
+        def is_max(o_):
+            return o_.kind == "const" and o_.const is not None and o_.const.get("named", "").endswith("MAX_RECURSION")
         for d in flow.stores(sl):
             if "recursion_limit" in flow._proj_names(d.place) and d.rv["k"] == "use":
-                for o in flow.origins(sl, d.rv["op"]):
+                os_ = flow.origins(sl, d.rv["op"])
+                for o in os_:
                     if o.kind == "call" and o.call.name.endswith("::min"):
                         for a in o.call.args:
                             for o2 in flow.origins(sl, a):
-                                if o2.kind == "const" and o2.const.get("named", "").endswith("MAX_RECURSION"):
+                                if is_max(o2):
                                     clamp = True
+                # the same written as a comparison: the stored value is the constant, or the argument on the side of
+                # `level <= MAX_RECURSION`
+                if not clamp and os_ and all(is_max(o) or o.kind == "arg" for o in os_) and any(is_max(o) for o in os_):
+                    bounded_defs = set()
+                    for df in flow.defs(sl).values():
+                        for x in df:
+                            if x.kind != "stmt" or x.rv["k"] != "use":
+                                continue
+                            src = flow.origins(sl, x.rv["op"])
+                            tgt_is_value = any(o2.key() in {o.key() for o in os_ if o.kind == "arg"} for o2 in src) and len(src) == 1 and src[0].kind == "arg"
+                            if not tgt_is_value:
+                                continue
+                            # is this copy of the argument one that reaches the store?  (cheap: it is a def of a local in
+                            # the store's origin chain) - require the bound on every such copy that is not the entry copy
+                            bounded = False
+                            for g in flow.guard_facts(prog, sl, x.bb):
+                                if g[0] == "bin" and g[1] in ("Le", "Lt", "Gt", "Ge"):
+                                    a_ = flow.origins(sl, g[3]["a"])
+                                    b_ = flow.origins(sl, g[3]["b"])
+                                    if any(is_max(q) for q in b_) and any(q.kind == "arg" for q in a_) and ((g[1] in ("Le", "Lt")) == bool(g[2])):
+                                        bounded = True
+                                    if any(is_max(q) for q in a_) and any(q.kind == "arg" for q in b_) and ((g[1] in ("Ge", "Gt")) == bool(g[2])):
+                                        bounded = True
+                            if bounded:
+                                bounded_defs.add((x.bb, x.idx if hasattr(x, 'idx') else id(x)))
+                    # the value stored: walk back the phi - every arg-origin definition feeding the store must be bounded
+                    feeding = []
+                    seen_l = set()
+                    work = [op_place(d.rv["op"])["l"]] if op_place(d.rv["op"]) else []
+                    while work:
+                        l_ = work.pop()
+                        if l_ in seen_l:
+                            continue
+                        seen_l.add(l_)
+                        for x in flow.whole_defs(sl, l_):
+                            if x.kind == "stmt" and x.rv["k"] == "use":
+                                q = op_place(x.rv["op"])
+                                if q is not None and "p" not in q:
+                                    src_ = flow.origins(sl, x.rv["op"])
+                                    if len(flow.whole_defs(sl, l_)) > 1 and src_ and all(o_.kind == "arg" for o_ in src_):
+                                        feeding.append(x)      # the member of the choice that is the caller's value
+                                    else:
+                                        work.append(q["l"])
+                    clamp = bool(feeding) and all((x.bb, x.idx if hasattr(x, 'idx') else id(x)) in bounded_defs for x in feeding)
         ctx.ob("C11.R2.set_recursion_limit-clamps", tag + SETLIM, clamp,
                "set_recursion_limit must store min(level, MAX_RECURSION)", sl.loc)
         # the limit field of the context is only written from the environment's limit
@@ -764,7 +823,9 @@ def run(ctx):
                       why=": the unsigned depth underflows and (without overflow checks) wraps, after which the limit "
                           "never trips")
         if prog.has_fn("minijinja::vm::Executor::call_block"):
-            ctx.floor("C11.R7 conditional charges keyed on the current block" + tag, check_conditional_charges(ctx, prog, tag), 1)
+            # (no floor on the number of *conditional* charges: a tree in which every charge is unconditional is fine;
+            # the rule is vacuous only when it finds no re-entering construct at all, which R1's floor catches)
+            ctx.count("C11.R7 conditional charges keyed on the current block" + tag, check_conditional_charges(ctx, prog, tag))
         check_swapped_contexts(ctx, prog, tag)
         # ---- R10 (= C05.B8, after seed C11-7): the charge argument follows the *instructions*: a jump to a position
         # remembered from other instructions (a recursive loop entered from a block or an include) re-runs code without
